@@ -1768,7 +1768,12 @@ class CodeGenerator(NodeVisitor):
 
     def visit_Const(self, node: nodes.Const, frame: Frame) -> None:
         val = node.as_const(frame.eval_ctx)
-        text = str(val) if isinstance(val, float) else repr(val)
+        if type(val) is int and val.bit_length() >= 10_000:
+            # a hex / octal / binary literal beyond the int -> str conversion
+            # limit of the interpreter, hex() has no such limit
+            text = hex(val)
+        else:
+            text = str(val) if isinstance(val, float) else repr(val)
         if isinstance(val, float) and not math.isfinite(val):
             # a float literal that overflowed in the lexer ("1e999")
             text = f"float({text!r})"
